@@ -1,6 +1,7 @@
 package main
 
 import (
+	"fmt"
 	"go/types"
 
 	"golang.org/x/tools/go/ssa"
@@ -98,10 +99,21 @@ func (x *Exec) mapDelete(st *State, t types.Type, ref *Term, key Value) {
 type rangeIter struct {
 	over ssa.Value
 	val  Value
+	key  string // state key of the visited set (maps only)
+}
+
+func iterKey(in *ssa.Range, depth int) string {
+	return fmt.Sprintf("ITER|%s|%d|%d", smtIdent(funcKey(in.Parent())), in.Block().Index, depth)
 }
 
 func (x *Exec) doRange(st *State, in *ssa.Range) Value {
-	return &rangeIter{over: in.X, val: x.val(st, in.X)}
+	it := &rangeIter{over: in.X, val: x.val(st, in.X)}
+	if _, isMap := in.X.Type().Underlying().(*types.Map); isMap {
+		it.key = iterKey(in, len(st.frames))
+		ks := mapKeySort(in.X.Type())
+		st.heap[it.key] = app("(as const "+string(arrSort(ks, SBool))+")", arrSort(ks, SBool), tFalse)
+	}
+	return it
 }
 
 // doNext: one step of a map or string iteration: (ok, key, value) with ok unconstrained.
@@ -125,10 +137,21 @@ func (x *Exec) doNext(st *State, in *ssa.Next) Value {
 		kv = nil
 	}
 	var vv Value
+	if kv == nil {
+		kv = x.freshValue("range_key", mt.Key())
+	}
 	if kv != nil {
 		k := x.keyTerm(st, mtype, kv)
 		_, ph := x.mapPresence(st, mtype)
 		x.assume(mkImplies(ok, mkAnd(mkNe(ref, mkInt(0)), mkSelect(mkSelect(ph, ref), k))))
+		if it.key != "" {
+			// each key is produced exactly once; when the iteration ends every present key has been produced
+			vis := st.heap[it.key]
+			x.assume(mkImplies(ok, mkNot(mkSelect(vis, k))))
+			q := mkVar("k!it", mapKeySort(mtype))
+			x.assume(mkImplies(mkNot(ok), mkForall([]*Term{q}, mkImplies(mkAnd(mkNe(ref, mkInt(0)), mkSelect(mkSelect(ph, ref), q)), mkSelect(vis, q)))))
+			st.heap[it.key] = mkIte(ok, mkStore(vis, k, tTrue), vis)
+		}
 		if tup.At(2).Type() != types.Typ[types.Invalid] {
 			var ts []*Term
 			for _, c := range comps(mt.Elem()) {
